@@ -84,6 +84,11 @@ func ParseVerbatim(s string, architecture string) (Channel, error) {
 		return Channel{}, fmt.Errorf("channel name has too many components: %s", s)
 	case 3:
 		track, risk, branch = &p[0], &p[1], &p[2]
+		if strutil.ListContains(channelRisks, p[0]) {
+			// <risk>/<risk> always reads as risk/branch, so a track named like a
+			// risk cannot be combined with a risk-only request (see Resolve)
+			return Channel{}, fmt.Errorf("invalid track in channel name: %s", s)
+		}
 	case 2:
 		if strutil.ListContains(channelRisks, p[0]) {
 			risk, branch = &p[0], &p[1]
